@@ -23,11 +23,17 @@ package node
 //@ ghost var $offsetSaves int
 //@ ghost var $fetched int
 //@ ghost var $savesAtFetch int
+//   $offLoads = reads of the stored offset so far, $offLoaded = the value read last, $loadsAtFetch = $offLoads at the last fetch
+//@ ghost var $offLoads int
+//@ ghost var $offLoaded uint64
+//@ ghost var $loadsAtFetch int
 //   $dos = successful FSMInstance.Do calls so far, $savedAtDo = value of $dos when the round was last saved
 //@ ghost var $dos int
 //@ ghost var $savedAtDo int
 //   $restarts = successful automatic restarts of a cancelled signing batch so far
 //@ ghost var $restarts int
+//   $fsmSaves = writes of a round's dump so far
+//@ ghost var $fsmSaves int
 //@ ghost var $vSender string
 //@ ghost var $vData bytesvalue
 //@ ghost var $vSig bytesvalue
@@ -46,6 +52,7 @@ package node
 //@   pure
 //@   epilogue $fx = old($fx) + 1
 //@   epilogue $savedAtDo = ite(result == nil, $dos, old($savedAtDo))
+//@   epilogue $fsmSaves = old($fsmSaves) + 1
 //@ func (github.com/lidofinance/dc4bc/client/services/signature.SignatureService).SaveSignatures
 //@   assumed
 //@   requires[C09.guard] $mayWrite || $initEvent
@@ -125,7 +132,7 @@ package node
 //@   prologue $mayWrite = (message.Event == "reinit_dkg")
 //@   prologue $initEvent = false
 //@   modifies *
-//@   modifies $vSender, $vData, $vSig, $vRound, $fx, $sends, $lastSent, $stored, $pend, $retired, $bufc, $bufWrites, $dos, $savedAtDo, $restarts
+//@   modifies $vSender, $vData, $vSig, $vRound, $fx, $sends, $lastSent, $stored, $pend, $retired, $bufc, $bufWrites, $dos, $savedAtDo, $restarts, $fsmSaves
 //@   epilogue $handledNext = message.Offset + 1
 //@   ensures unchanged("BaseNodeService.userName", "BaseNodeService.state", "BaseNodeService.storage", "BaseNodeService.ctx")
 //@   ensures[C09.skip.keep] s.SkipCommKeysVerification == old(s.SkipCommKeysVerification)
@@ -189,7 +196,7 @@ package node
 //@   requires s != nil
 //@   prologue $initEvent = (message.Event == "event_sig_proposal_init")
 //@   modifies *
-//@   modifies $mayWrite, $vSender, $vData, $vSig, $vRound, $fx, $sends, $lastSent, $dos, $savedAtDo, $restarts
+//@   modifies $mayWrite, $vSender, $vData, $vSig, $vRound, $fx, $sends, $lastSent, $dos, $savedAtDo, $restarts, $fsmSaves
 // the participant a request speaks for must be the participant registered under the sender's name (third Do: the event itself)
 // the automatic restart of a cancelled batch is saved before the event itself is applied, so that it survives
 // even if the event is then rejected
@@ -198,6 +205,10 @@ package node
 // a message that ends in an error has not moved the stored round: the only save that may precede the error is the one
 // of the automatic restart, taken before the message's own event was applied (rejected input is a no-op, C18)
 //@   ensures[C18.node.noop] result1 != nil ==> $savedAtDo == old($savedAtDo) || $savedAtDo <= old($dos) + ($restarts - old($restarts))
+// the round is written once per handled message, after everything the message triggered was applied (plus once for
+// each automatic restart taken before it): no intermediate state that accepts no board message ever reaches the store,
+// so a node killed between two writes never wakes up in one
+//@   ensures[C13.save.once] $fsmSaves - old($fsmSaves) <= 1 + ($restarts - old($restarts))
 // the message that wakes up a cancelled batch is not swallowed: after the automatic restart its own event is applied, too
 //@   ensures[C06.restart.continue,C07.restart.continue] result1 == nil && message.Event != "event_signing_restart" && $restarts > old($restarts) ==> $dos >= old($dos) + 2
 //@   ensures[C09.authorised] result1 == nil ==> $mayWrite || $initEvent
@@ -225,7 +236,7 @@ package node
 //@   requires s != nil
 //@   requires[C09.guard] $mayWrite
 //@   modifies *
-//@   modifies $mayWrite, $initEvent, $vSender, $vData, $vSig, $vRound, $fx, $sends, $lastSent, $bufc, $bufWrites, $dos, $savedAtDo, $restarts
+//@   modifies $mayWrite, $initEvent, $vSender, $vData, $vSig, $vRound, $fx, $sends, $lastSent, $bufc, $bufWrites, $dos, $savedAtDo, $restarts, $fsmSaves
 //@   loop 0 invariant $mayWrite && s.SkipCommKeysVerification
 //@   loop 0 invariant req.Messages == $range
 //@   loop 0 invariant[C20.replay.stop] forall j int :: 0 <= j && j <= $i ==> req.Messages[j].Event != "event_signing_start"
@@ -263,7 +274,7 @@ package node
 //@   requires s != nil && operation != nil
 //@   prologue $mayWrite = true
 //@   modifies *
-//@   modifies $initEvent, $fx, $sends, $lastSent, $stored, $pend, $retired, $dos, $savedAtDo, $restarts
+//@   modifies $initEvent, $fx, $sends, $lastSent, $stored, $pend, $retired, $dos, $savedAtDo, $restarts, $fsmSaves
 //@   loop 0 invariant $sends == old($sends) && unchanged("BaseNodeService.userName", "types.Operation.ID", "types.Operation.Type", "types.Operation.Payload", "types.Operation.ResultMsgs", "types.Operation.Event", "[]byte")
 //@   loop 0 invariant $stored != nil && $stored != operation && ($stored.ID in $pend)
 //@   loop 0 invariant forall j int :: 0 <= j && j <= $i ==> operation.ResultMsgs[j].SenderAddr == s.userName && content(operation.ResultMsgs[j].Signature) == edSign(keyOf(s.userName), content(operation.ResultMsgs[j].Data))
@@ -286,18 +297,26 @@ package node
 //@ func (github.com/lidofinance/dc4bc/client/modules/state.State).LoadOffset
 //@   assumed
 //@   pure
+//@   epilogue $offLoads = old($offLoads) + 1
+//@   epilogue $offLoaded = result0
 //@ func (github.com/lidofinance/dc4bc/storage.Storage).GetMessages
 //@   assumed
 //@   pure
 //@   epilogue $fetched = ite(result1 == nil, len(result0), 0)
 //@   epilogue $savesAtFetch = $offsetSaves
+//@   epilogue $loadsAtFetch = $offLoads
 //@ func (*BaseNodeService).Poll
 //@   nosafety
 //@   requires s != nil
 //@   modifies *
-//@   modifies $mayWrite, $initEvent, $vSender, $vData, $vSig, $vRound, $fx, $sends, $lastSent, $stored, $pend, $retired, $handledNext, $bufc, $bufWrites, $dos, $savedAtDo, $restarts, $offsetSaves, $fetched, $savesAtFetch
+//@   modifies $mayWrite, $initEvent, $vSender, $vData, $vSig, $vRound, $fx, $sends, $lastSent, $stored, $pend, $retired, $handledNext, $bufc, $bufWrites, $dos, $savedAtDo, $restarts, $fsmSaves, $offLoads, $offLoaded, $loadsAtFetch, $offsetSaves, $fetched, $savesAtFetch
 //@   prologue $fetched = 0
 //@   prologue $savesAtFetch = $offsetSaves
+//@   prologue $loadsAtFetch = $offLoads
+// every fetch asks the board for the offset the store holds now (read in the same tick): a reset or an offset set
+// through the API while the node runs is honoured, and the board is replayed from there
+//@   loop 0 invariant $loadsAtFetch <= $offLoads
+//@   assert@call GetMessages[C08.poll.offset,C13.poll.offset] offset == $offLoaded && $offLoads > $loadsAtFetch
 //@   loop 0 invariant[C13.offset.every] $offsetSaves == $savesAtFetch + $fetched
 //@   loop 1 invariant[C13.offset.every] $offsetSaves == $savesAtFetch + $i + 1 && len($range) == $fetched
 //@   assert@call SaveOffset[C13.offset] arg0 == message.Offset + 1 && ($handledNext == arg0 || !(message.RecipientAddr == "" || message.RecipientAddr == s.userName))
@@ -338,7 +357,7 @@ package node
 //@   nosafety
 //@   requires s != nil && dto != nil
 //@   modifies *
-//@   modifies $mayWrite, $initEvent, $fx, $sends, $lastSent, $stored, $pend, $retired, $dos, $savedAtDo, $restarts
+//@   modifies $mayWrite, $initEvent, $fx, $sends, $lastSent, $stored, $pend, $retired, $dos, $savedAtDo, $restarts, $fsmSaves
 //@   assert@call executeOperation[C15.dto] operation.ID == dto.ID && string(operation.Type) == dto.Type && operation.Payload == dto.Payload && operation.ResultMsgs == dto.ResultMsgs && operation.DKGIdentifier == dto.DkgID && operation.To == dto.To && operation.Event == dto.Event && operation.ExtraData == dto.ExtraData
 
 // approving an invitation answers only an operation of the invitation type, in the name of the participant whose
@@ -347,7 +366,7 @@ package node
 //@   nosafety
 //@   requires s != nil && dto != nil
 //@   modifies *
-//@   modifies $mayWrite, $initEvent, $fx, $sends, $lastSent, $stored, $pend, $retired, $dos, $savedAtDo, $restarts, $bufc
+//@   modifies $mayWrite, $initEvent, $fx, $sends, $lastSent, $stored, $pend, $retired, $dos, $savedAtDo, $restarts, $fsmSaves, $bufc
 //@   assert@call executeOperation[C15.approve] string(operation.Type) == "state_sig_proposal_await_participants_confirmations" && loc(pid) != -1 && operation.Event == "event_sig_proposal_confirm_by_participant" && len(operation.ResultMsgs) >= 1
 
 // ---- the remaining entry points of the local API: whatever the (bound and validated) request body holds, the node
